@@ -69,6 +69,7 @@ type FuncSpec struct {
 	Notes      []string
 	Opts       map[string]string
 	ExitGhost  []*Clause // ghost updates applied at each return
+	AssumeBody []*Clause // body verified only under these conditions (the rest of the contract's domain is assumed)
 	AtCall     []*AtCall // ghost updates applied right after the k-th call (source order) of a callee
 	Lemmas     []*Clause // entry-state lemmas `forall v int, ... :: P`, proved by strong induction on the first variable
 	Uses       []*Clause
@@ -165,8 +166,8 @@ var clauseKeywords = map[string]bool{
 	"modifies": true, "panics-when": true, "invariant": true, "ghost": true, "ghost-param": true,
 	"decreases": true, "arith": true, "inline": true, "pure": true, "calllog": true, "call": true,
 	"assert": true, "lock": true, "finding": true, "pred": true, "fun": true, "axiom": true,
-	"lemma": true, "guards": true, "trusted": true, "note": true, "opt": true, "exit-ghost": true, "release-views": true,
-	"use": true, "ufun": true, "gfield": true, "ghost-at": true, "lockinv": true,
+	"lemma": true, "guards": true, "trusted": true, "note": true, "opt": true, "exit-ghost": true, "release-views": true, "assume-body": true,
+	"use": true, "ufun": true, "gfield": true, "ghost-at": true, "assume-at": true, "lockinv": true,
 }
 
 func (cs *ContractSet) parseLines(file string, lines []string, nums []int, extern bool) error {
@@ -390,10 +391,17 @@ func (cs *ContractSet) parseLines(file string, lines []string, nums []int, exter
 				cur.Opts = map[string]string{}
 			}
 			cur.Opts["release-views"] = it.rest
+		case "assume-body":
+			// the body is verified only under this extra condition on its inputs; outside it the contract is assumed
+			c, err := mk(true)
+			if err != nil {
+				return err
+			}
+			cur.AssumeBody = append(cur.AssumeBody, c)
 		case "exit-ghost":
 			c, _ := mk(false)
 			cur.ExitGhost = append(cur.ExitGhost, c)
-		case "ghost-at":
+		case "ghost-at", "assume-at":
 			// ghost-at Contains#1: lhs = rhs [when cond]
 			k := strings.Index(it.rest, ":")
 			if k < 0 {
@@ -405,7 +413,7 @@ func (cs *ContractSet) parseLines(file string, lines []string, nums []int, exter
 				ord, _ = strconv.Atoi(nm[h+1:])
 				nm = nm[:h]
 			}
-			cur.AtCall = append(cur.AtCall, &AtCall{Callee: nm, Ordinal: ord, Clause: &Clause{Kind: "ghost-at", Text: strings.TrimSpace(it.rest[k+1:]), Src: src}})
+			cur.AtCall = append(cur.AtCall, &AtCall{Callee: nm, Ordinal: ord, Clause: &Clause{Kind: it.kw, Text: strings.TrimSpace(it.rest[k+1:]), Src: src}})
 		case "ghost-param":
 			f := strings.Fields(it.rest)
 			if len(f) < 2 {
